@@ -1238,8 +1238,8 @@ pub fn run(ctx: &Ctx) {
     let steer = Steer::from_ctx(ctx);
     ctx.note(format!("avoidance switches of listed findings that are on for the random campaign: {}", steer.switches_on()));
     let (cases, depth, e2e_every) = match ctx.tier {
-        Tier::Quick => (40_000u64, 4u32, 4u64),
-        Tier::Thorough => (1_000_000, 6, 4),
+        Tier::Quick => (200_000u64, 4u32, 4u64),
+        Tier::Thorough => (3_000_000, 6, 4),
     };
     let profile = Profile::all();
     let all = config::configs();
